@@ -9,6 +9,8 @@ import (
 
 	commonv1 "github.com/apache/skywalking-banyandb/api/proto/banyandb/common/v1"
 	"github.com/apache/skywalking-banyandb/banyand/measure"
+	"github.com/apache/skywalking-banyandb/banyand/stream"
+	vstream "github.com/apache/skywalking-banyandb/pkg/query/vectorized/stream"
 	"github.com/apache/skywalking-banyandb/pkg/bus"
 	"github.com/apache/skywalking-banyandb/pkg/logger"
 )
@@ -51,3 +53,29 @@ func (p *VerifC15Processors) InternalQuery(ctx context.Context, msg bus.Message)
 }
 
 var _ = fmt.Sprintf
+
+// verifC15StreamService serves the two calls streamQueryProcessor.Rev makes on its stream service.
+type verifC15StreamService struct {
+	stream.Service
+	lookup func() stream.Stream
+}
+
+func (s *verifC15StreamService) Stream(_ *commonv1.Metadata) (stream.Stream, error) { return s.lookup(), nil }
+
+func (s *verifC15StreamService) VectorizedConfig() vstream.VectorizedConfig {
+	return s.lookup().VectorizedConfig()
+}
+
+// VerifC15StreamProcessor is the real standalone stream query processor over one stream resource.
+type VerifC15StreamProcessor struct{ sqp *streamQueryProcessor }
+
+// VerifC15NewStreamProcessor builds it as NewService does (standalone: distributed=false).
+func VerifC15NewStreamProcessor(lookup func() stream.Stream) *VerifC15StreamProcessor {
+	svc := &queryService{nodeID: "n0", log: logger.GetLogger(moduleName)}
+	return &VerifC15StreamProcessor{sqp: &streamQueryProcessor{streamService: &verifC15StreamService{lookup: lookup}, queryService: svc}}
+}
+
+// Query is streamQueryProcessor.Rev (TopicStreamQuery).
+func (p *VerifC15StreamProcessor) Query(ctx context.Context, msg bus.Message) bus.Message {
+	return p.sqp.Rev(ctx, msg)
+}
